@@ -185,6 +185,9 @@ type Node struct {
 	Accepted    map[uint32][]*vt.Block // blocks for which ProcessBlock returned nil
 	PreAccepted map[uint32]int
 	Requested   []vt.H // union of RequestTx arguments since the last proposal was stored
+	// Want is the application's own record of what the library asked for and was not yet handed
+	// (hash -> height/view of the request); the schedulers supply from it, never from the library's list
+	Want map[vt.H][2]uint32
 	Callbacks   int    // number of callback invocations so far
 }
 
@@ -256,6 +259,12 @@ func (n *Node) newDBFT() {
 		dbft.WithGetVerified[vt.H](n.cbGetVerified),
 		dbft.WithRequestTx[vt.H](func(hs ...vt.H) {
 			n.Requested = append(n.Requested, hs...)
+			if n.Want == nil {
+				n.Want = map[vt.H][2]uint32{}
+			}
+			for _, h := range hs {
+				n.Want[h] = [2]uint32{n.D.BlockIndex, uint32(n.D.ViewNumber)}
+			}
 			n.ev(EvRequestTx, nil, fmt.Sprint(len(hs)))
 			for _, m := range w.Mons {
 				if m.RequestTx != nil {
